@@ -202,6 +202,15 @@ def run(chk):
             pairs = pairs + [(d_, f_) for d_ in DEFERRED for f_ in followups]
             pairs = pairs + [(d_, f_) for d_ in (list(DEFERRED)[:1] if chk.tier == 'quick' else DEFERRED) for f_ in RESEND if ('spin' not in f_ or True)]
             seqs = [(m,) for m in singles] + pairs
+            # A ; B ; A with the same value of A sent again, and A ; B ; A' ; B' (length 3 and 4)
+            base3 = ['orbit.set_eccentricity', 'world.set_spin_frequency', 'orbit.set_semi_major_axis', 'world.set_fixed_q', 'world.set_obliquity', 'world.set_state(eccentricity)']
+            if chk.tier == 'quick':
+                longer = [('orbit.set_eccentricity', 'world.set_spin_frequency', 'again: orbit.set_eccentricity'), ('world.set_fixed_q', 'orbit.set_semi_major_axis', 'again: world.set_fixed_q'),
+                          ('orbit.set_semi_major_axis', 'orbit.set_eccentricity', 'orbit.set_semi_major_axis')]
+            else:
+                longer = [(a_, b_, 'again: ' + a_) for a_ in base3 for b_ in base3 if a_ != b_] + [(a_, b_, a_) for a_ in base3[:4] for b_ in base3[:4] if a_ != b_] + \
+                         [(a_, b_, a_, b_) for a_ in base3[:3] for b_ in base3[:3] if a_ != b_]
+            seqs = seqs + longer
             # second pass with numpy arrays as state values (mutable cells: `x = y` aliases, `x op= c` updates in place): the driver's own arrays must come back intact
             array_seqs = [(m,) for m in singles] + (pairs if chk.tier != 'quick' else pairs[:3])
             for arrays, seq in [(False, q_) for q_ in seqs] + [(True, q_) for q_ in array_seqs]:
@@ -225,7 +234,15 @@ def run(chk):
                     s = build(repo, it, stb, use_ctl, obliq_on)
                     full_init(it, s)
                     call(it, s.world, 'orbit_spin_changed', orbital_freq_changed=True, spin_freq_changed=True, eccentricity_changed=True, obliquity_changed=True)
+                    sent = {}
                     for i, mname in enumerate(seq):
+                        if mname.startswith('again: '):
+                            # the value of the first step is sent once more (A ; B ; A): a cache that remembers "the last value seen" must not mistake it for no change
+                            key, fn_ = MUTATORS[mname[7:]]
+                            newv = sent[mname[7:]]
+                            fn_(it, s, hand(f'step {i + 1} value', newv))
+                            final[key] = newv
+                            continue
                         key, fn_ = MUTATORS[mname]
                         if key == 'Q+dt':
                             newv = (X.atom(f'Q{i + 1}', 'pos'), X.atom(f'dt{i + 1}', 'pos'))
@@ -236,6 +253,7 @@ def run(chk):
                             fn_(it, s, None)
                             continue
                         newv = X.atom(f'{key}{i + 1}', 'pos' if key in ('e', 'a', 'Q', 'dt') else 'real')
+                        sent[mname] = newv
                         fn_(it, s, hand(f'step {i + 1} value', newv))
                         final[key] = newv
                     out_ = {q_: (X.lift(v_) if isinstance(v_, ArrBox) else v_) for q_, v_ in exposed(s).items()}
